@@ -809,3 +809,41 @@ Qed.
 (* element-wise form *)
 Corollary events_ok_in evs ev : forallb ev_ok evs = true -> In ev evs -> ev_ok ev = true.
 Proof. intros H. rewrite forallb_forall in H. apply H. Qed.
+
+(* ---------------------------------------------------------------------------------------------
+   Non-vacuity: concrete instances (the LZMA1 end marker, a long distance, a rep2, a matched literal) *)
+Example end_marker_instance :
+  let c := mkCoder 5 7 8 9 10 3 0 2 in
+  match enc_match_events c 3 4294967295 2 with
+  | Ok (evs, c') =>
+      run_trace (decode_match c 3) (evs ++ [EBit 0 1]) = Some (Ok (c', 2), [EBit 0 1]) /\
+      c_rep0 c' = 4294967295 /\ length evs = 15%nat
+  | _ => False
+  end.
+Proof. vm_compute. repeat split. Qed.
+
+Example rep2_instance :
+  let c := mkCoder 8 7 8 9 10 3 0 2 in
+  match enc_rep_events c 1 2 273 with
+  | Ok (evs, c') =>
+      run_trace (decode_rep_match c 1) (evs ++ []) = Some (Ok (c', 273), []) /\
+      (c_rep0 c', c_rep1 c', c_rep2 c', c_rep3 c') = (9, 7, 8, 10)
+  | _ => False
+  end.
+Proof. vm_compute. repeat split. Qed.
+
+Example matched_literal_instance :
+  run_trace (lit_prog 1856 (Some 0xA5)) (lit_events 1856 (Some 0xA5) 0xA7 ++ []) = Some (Ok 0x1A7, []).
+Proof. vm_compute. reflexivity. Qed.
+
+Print Assumptions run_trace_bind.
+Print Assumptions run_trace_consumed.
+Print Assumptions state_range.
+Print Assumptions bittree_roundtrip.
+Print Assumptions rev_bittree_roundtrip.
+Print Assumptions len_roundtrip.
+Print Assumptions lit_roundtrip.
+Print Assumptions rep_roundtrip.
+Print Assumptions dist_slot_spec.
+Print Assumptions match_roundtrip.
+Print Assumptions events_ok.
